@@ -15,6 +15,9 @@ func genC11(seed uint64, tier string, idx int) *Plan {
 	p, g := newPlan("C11", seed, tier)
 	if g.r.chance(30) {
 		p.Svc.KeyMode = "tag" // a key function whose keys are not the phone numbers
+		if g.r.chance(40) {
+			p.Svc.KeyMode = "tag-nohb" // ... and that has no key for a heartbeat
+		}
 		p.Faults = append(p.Faults, "config.custom_key_func")
 	}
 	nkeys := 2 + g.r.intn(2)
@@ -225,8 +228,8 @@ func checkC11(r *Result) []Violation {
 		frames := r.Plan.Expect.Frames[ci]
 		firstIdx := -1
 		for i, f := range frames {
-			if isHandled(f.ID) {
-				firstIdx = i
+			if isHandled(f.ID) && !(r.Plan.Svc.KeyMode == "tag-nohb" && f.ID == 0x0002) {
+				firstIdx = i // the first handled message the key function has a key for
 				break
 			}
 		}
@@ -241,6 +244,13 @@ func checkC11(r *Result) []Violation {
 					hs[ci].firstHandled = e.Step
 				}
 			case KJoin:
+				if strings.Contains(e.Err, "key invalid") {
+					if r.Plan.Svc.KeyMode != "tag-nohb" || e.ID != 0x0002 {
+						bad("key_invalid_unexpected", fmt.Sprintf("conn %d: message id=%#04x was announced as having no key although the key function has one for it", ci, e.ID), e.Step)
+						return vs
+					}
+					continue // neither a join nor a refusal: the connection tries again with its next message
+				}
 				hs[ci].joins++
 				if hs[ci].joinEv == nil {
 					ev := e
